@@ -5,7 +5,7 @@ import (
 )
 
 func init() {
-	register("C39", []string{".", "./objstorage/...", "./internal/manifest"}, runC39)
+	register("C39", []string{".", "./objstorage/...", "./internal/manifest", "./valsep"}, runC39)
 	propExplain["C39"] = "Decides ownership/ordering clauses of C39: objects are removed from the provider only by the obsolete-file deleter, the ingest's own cleanup of files it linked, and the copy-compaction's delete-on-exit; files are enqueued for deletion only by deleteObsoleteFiles, which does nothing while deletions are disabled and obsoletes WALs only below the durable minUnflushedLogNum; the obsolete lists are written only by their owners; files become obsolete only through the version-refcount callback, the flushable's last-reader unref, and the failure arms that dispose of their own outputs; zombie sets are updated before the new version is installed; every read-state/version reference is released or owned (C04.P1–P3); a compaction output object that was created is handed to the caller / result on every later exit (so failure arms can dispose of it). Does not decide refcount arithmetic at run time."
 	propTechnique["C39"] = "who-may-call/write (module-wide), SSA ordering, resource pairing, created-object disposal obligation"
 }
@@ -131,6 +131,38 @@ func runC39(c *Ctx) {
 			ok := s.has("ok:sync")
 			c.Ob("C39.P2", fn, "output kept only after it was synced", c.P.Pos(in.Pos()), ok, "")
 		})
+	}
+	// P2c: value separation (F8, recorded as a known finding): when closing a blob file writer
+	// fails, the object that was created for it must still be reported to the caller, otherwise the
+	// compaction's failure arm (which obsoletes result.Blobs) never learns about it.
+	if c.P.ByPath[pkgAlias["valsep"]] != nil {
+		if fn := c.Fn("C39.P2", "valsep.(*ValueSeparator).closeWriters"); fn != nil {
+			fl := NewFlow(c.P).Edge("close-failed", func(v ssa.Value) (bool, bool) {
+				ok, neg := NilErrGuard(CallPred("Close", "blob"))(v)
+				return ok, !neg
+			})
+			res := fl.Analyze(fn, emptyState())
+			n := 0
+			res.At(AnyReturn, func(in ssa.Instruction, s State) {
+				if !s.has("close-failed") {
+					return
+				}
+				n++
+				ret := in.(*ssa.Return)
+				rv := ret.Results[0]
+				if u, isLoad := rv.(*ssa.UnOp); isLoad {
+					if st := precedingStore(u); st != nil {
+						rv = st.Val
+					}
+				}
+				ok := !isNilConst(rv)
+				c.Ob("C39.P2", fn, "a blob object whose writer failed to close is still reported to the caller", c.P.Pos(in.Pos()), ok,
+					map[bool]string{true: "", false: "closeWriters returns no NewBlobFileInfo when FileWriter.Close fails: the created .blob object is never marked obsolete and lingers until the next Open (F8)"}[ok])
+			})
+			if n == 0 {
+				c.Unresolved("C39.P2", "error return after FileWriter.Close not found in closeWriters")
+			}
+		}
 	}
 	// shared pairing rules
 	runC04Pairing(c)
